@@ -45,7 +45,7 @@ REQUIRED = {"remove_then_add": 5, "override_empty_value": 3, "same_key_two_secti
 
 def _ws(draw, key):
     """a whitespace variant of a key"""
-    how = draw(st.sampled_from(["same", "same", "spaces", "tab", "around"]))
+    how = draw(st.sampled_from(["same", "same", "spaces", "tab", "around", "nbsp"]))
     if how == "same":
         return key
     if how == "around":
@@ -53,7 +53,7 @@ def _ws(draw, key):
     out = []
     for ch in key:
         if ch in "-(),>.":
-            out.append((" " if how == "spaces" else "\t") + ch + " ")
+            out.append({"spaces": " ", "tab": "\t", "nbsp": "\u00a0"}[how] + ch + " ")
         else:
             out.append(ch)
     return "".join(out).strip() if how == "spaces" else "".join(out)
